@@ -7,9 +7,19 @@ from engine.symio import SymFile, PyStruct
 from TotalDepth.BIT import ReadBIT
 from TotalDepth.common import LogPass as CLP
 
-ReadBIT.np = FakeNp
-CLP.np = FakeNp
-ReadBIT.TIF_WORD_STRUCT = PyStruct(ReadBIT.TIF_WORD_STRUCT.format)
+import numpy as _real_np
+_REAL_STRUCT = ReadBIT.TIF_WORD_STRUCT
+_PY_STRUCT = PyStruct(ReadBIT.TIF_WORD_STRUCT.format)
+
+
+def use_fake(on):
+    """Switch the list-backed numpy stand-in and the PyStruct shim on (symbolic execution) or off (native runs of other harnesses)."""
+    ReadBIT.np = FakeNp if on else _real_np
+    CLP.np = FakeNp if on else _real_np
+    ReadBIT.TIF_WORD_STRUCT = _PY_STRUCT if on else _REAL_STRUCT
+
+
+use_fake(True)
 
 NAMES = [b'AAA ', b'BBB ', b'CCC ']
 F_1000 = b'\x43\x3e\x80\x00'   # 1000.0
@@ -125,7 +135,7 @@ def _blocks(nch, nb, f0, f1, s0, s1, inc):
 
 
 def _tif(ty, prev, nxt):
-    return ReadBIT.TIF_WORD_STRUCT.pack(ty, prev, nxt)
+    return _PY_STRUCT.pack(ty, prev, nxt)
 
 
 def build_file(passes):
